@@ -12,6 +12,7 @@ from fractions import Fraction as Fr
 
 import z3
 
+from . import core
 from .core import (R, C, SI, SB, ctx, have_ctx, EncodingGap, tz, ite, sb_and, sb_or, ZERO, ONE,
                    _isz, is_symbolic, ndarray_types)
 
@@ -218,6 +219,9 @@ def exp(x):
     v = _fresh('exp')
     out = R(v)
     ctx().axioms.append(v > 0)
+    # double range: exp underflows to 0 below about -745 and overflows to inf above about 709 (then 0*inf = nan downstream).
+    # Recorded as a definedness side condition: assumed by ordinary obligations, decided where check_defined is posted.
+    core.assume_def(sb_and([x >= -700, x <= 700]).t, 'exp argument within the range of a double')
     _ax(out >= x + 1)
     ents = _entries('exp')
     if len(ents) <= PAIR_LIMIT:
